@@ -51,6 +51,16 @@ def opC18Validate (j : Json) : Except String Json := do
                     ("errors", jarr (errs.map fun (k, e) => jarr [Json.str k, c18ErrJson e]))])
 
 open Model.AutoPop in
+/-- generation outcome: `views` = for each view of the API that renders a service, the selectors of its `all_methods` -/
+def opC18Generate (j : Json) : Except String Json := do
+  let api ← (← getArrL j "api").mapM c18Method
+  let ss ← (← getArrL j "settings").mapM c18Settings
+  let views ← (← getArrL j "views").mapM fun v => do (← v.getArr?).toList.mapM fun s => s.getStr?
+  let errs := generate (views.map (viewOf api)) ss
+  pure (Json.mkObj [("accepted", Json.bool errs.isEmpty),
+                    ("errors", jarr (errs.map fun (k, e) => jarr [Json.str k, c18ErrJson e]))])
+
+open Model.AutoPop in
 def c18Req (j : Json) : Except String Req := do
   (← j.getArr?).toList.mapM fun kv => do
     match (← kv.getArr?).toList with
@@ -127,7 +137,7 @@ def opC18Pipeline (j : Json) : Except String Json := do
   pure (Json.mkObj [("stmts", jarr ((pipeline path).map fun s => Json.str (c18StmtName s)))])
 
 def opsC18 : List (String × (Json → Except String Json)) :=
-  [("c18.validate", opC18Validate), ("c18.session", opC18Session), ("c18.pipeline", opC18Pipeline),
+  [("c18.validate", opC18Validate), ("c18.generate", opC18Generate), ("c18.session", opC18Session), ("c18.pipeline", opC18Pipeline),
    ("c18.imports", opC18Imports)]
 
 end GapicModel.Driver
